@@ -331,6 +331,15 @@ def evaluate_deltas(expr, target_idx: str = None):
             if idx is None:  # delta_{i p_alpha}
                 continue
             preferred, killable = idx
+            # if both indices are contracted and only occur on the delta,
+            # the delta represents the dimension of the space and can
+            # not be evaluated: sum_pq delta_pq != delta_pp = 1
+            if preferred not in target_idx and killable not in target_idx \
+                    and not any(
+                        preferred in obj.atoms(Index) or
+                        killable in obj.atoms(Index)
+                        for obj in expr.args if obj is not d):
+                continue
             # try to remove killable
             if killable not in target_idx:
                 expr = expr.subs(killable, preferred)
